@@ -97,7 +97,12 @@ def process_cases(tier, rng, escapes=True):
     nr = 150 if tier == "quick" else 3000
     for _ in range(nr):
         n = 2 + r.below(7)
-        progs.append(([r.choice("sao") for _ in range(n - 1)], [r.choice([0, 0, 1, 2, 42, 255]) for _ in range(n)]))
+        progs.append(([r.choice("sao") for _ in range(n - 1)], [r.choice([0, 0, 1, 2, 42, 255, 143, 137, 130]) for _ in range(n)]))
+    # a pipeline ended by a signal reports 128 + signal: every operator after it decides on that status
+    for ops in itertools.product("sao", repeat=2):
+        for k in (143, 137):
+            progs.append((list(ops), [k, 0, 1]))
+            progs.append((list(ops), [0, k, 0]))
     safe_decoys = ["';'", "'&&'", "'||'", "\"a;b\"", "\"x && y\"", "'#'", "\"#c\"", "'a || b'"]
     if escapes:
         # backslash-escaped operators only through -c: the script path re-renders tokens and loses
@@ -106,7 +111,7 @@ def process_cases(tier, rng, escapes=True):
     for ops, sts in progs:
         segs = []
         for i, st in enumerate(sts):
-            w = ["stage", str(i), str(st)]
+            w = ["stage", str(i), {143: "sig15", 137: "sig9", 130: "sig2"}.get(st, str(st))]
             for _ in range(r.below(3)):
                 w.append(r.choice(safe_decoys))
             segs.append((" " if i > 0 else "") + " ".join(w) + (" " if i < len(sts) - 1 else ""))
